@@ -144,6 +144,12 @@ pub fn benign_header_line(rng: &mut Rng) -> Vec<u8> {
             line.extend_from_slice(rng.pick(&OTHER_VALUES).as_bytes());
         }
     }
+    // a line may BEGIN with SP / HTAB (the name is padded): it is a field of its own, not a continuation of the previous one
+    if rng.chance(1, 8) {
+        let mut l = rng.pick(&[" ", "\t", " \t"]).as_bytes().to_vec();
+        l.extend_from_slice(&line);
+        return l;
+    }
     line
 }
 
@@ -250,7 +256,8 @@ pub fn valid_request(rng: &mut Rng, o: &ReqOpts) -> ReqPlan {
             1 => format!("00{}", clen),
             _ => clen.to_string(),
         };
-        headers.push(format!("{}:{}{}{}", case_pattern(rng, "Content-Length"), rng.pick(&PADS), val, rng.pick(&PADS)).into_bytes());
+        let lead = if rng.chance(1, 8) { *rng.pick(&[" ", "\t"]) } else { "" };
+        headers.push(format!("{}{}:{}{}{}", lead, case_pattern(rng, "Content-Length"), rng.pick(&PADS), val, rng.pick(&PADS)).into_bytes());
     }
     let mut plan = ReqPlan {
         method: method.to_string(),
